@@ -539,9 +539,9 @@ func litCmp(a, b *Term) int {
 var eqMemo = map[selKey]*Term{}
 
 func Eq(a, b *Term) *Term {
-	k := selKey{a.id, b.id}
+	k := selKey{a.id, b.id, false}
 	if a.id > b.id {
-		k = selKey{b.id, a.id}
+		k = selKey{b.id, a.id, false}
 	}
 	if r, ok := eqMemo[k]; ok {
 		return r
@@ -645,12 +645,27 @@ func Mul(a, b *Term) *Term {
 	return mk("*", "", 0, SInt, a, b)
 }
 
-type selKey struct{ a, i int }
+type selKey struct {
+	a, i int
+	lift bool
+}
 
 var selMemo = map[selKey]*Term{}
 
+// liftMode: resolve case distinctions inside addresses (only while contract clauses are evaluated: the reads of a
+// postcondition go through the merged exit state, where addresses are case distinctions over the paths)
+var liftMode bool
+
+func iteLeaves(t *Term, max int) int {
+	if t.Op != "ite" || max <= 0 {
+		return 1
+	}
+	n := iteLeaves(t.Args[1], max-1)
+	return n + iteLeaves(t.Args[2], max-n)
+}
+
 func Select(a, i *Term) *Term {
-	k := selKey{a.id, i.id}
+	k := selKey{a.id, i.id, liftMode}
 	if r, ok := selMemo[k]; ok {
 		return r
 	}
@@ -690,9 +705,9 @@ func liftIte(i *Term) *Term {
 }
 
 func selectRaw(a, i *Term) *Term {
-	if a.Op != "var" && i.S == SRef {
+	if liftMode && a.Op != "var" && i.S == SRef {
 		// case distinctions in the address are resolved per case, so that each case can be decided syntactically
-		if j := liftIte(i); j.Op == "ite" {
+		if j := liftIte(i); j.Op == "ite" && iteLeaves(j, 200) <= 200 {
 			return Ite(j.Args[0], Select(a, j.Args[1]), Select(a, j.Args[2]))
 		}
 	}
@@ -704,7 +719,7 @@ func selectRaw(a, i *Term) *Term {
 				return a.Args[2]
 			case 0:
 				a = a.Args[0]
-				if r, ok := selMemo[selKey{a.id, i.id}]; ok {
+				if r, ok := selMemo[selKey{a.id, i.id, liftMode}]; ok {
 					return r
 				}
 				continue
@@ -1119,7 +1134,20 @@ func (p *printer) expr(t *Term) string {
 		return sym
 	case "var":
 		sym := smtSym(t.Name)
-		p.declare(sym, fmt.Sprintf("(declare-const %s %s)", sym, t.S))
+		decl := fmt.Sprintf("(declare-const %s %s)", sym, t.S)
+		// age bounds the simplifier knows are told to the solver as well
+		if t.Bound != 0 && t.S == SRef {
+			p.usesRootID = true
+			decl += fmt.Sprintf("\n(assert (< (rootid %s) %d))", sym, t.Bound)
+			if !(t.GapLo == 0 && t.GapHi == 0) {
+				decl += fmt.Sprintf("\n(assert (or (< (rootid %s) %d) (> (rootid %s) %d)))", sym, t.GapLo, sym, t.GapHi)
+			}
+		}
+		if t.Bound != 0 && t.S.Name == "Array" && t.S.Val == SRef && !p.ground {
+			p.usesRootID = true
+			decl += fmt.Sprintf("\n(assert (forall ((r!q Ref)) (! (< (rootid (select %s r!q)) %d) :pattern ((select %s r!q)))))", sym, t.Bound, sym)
+		}
+		p.declare(sym, decl)
 		return sym
 	case "bound":
 		return smtSym(t.Name)
@@ -1208,6 +1236,7 @@ func (p *printer) args(as []*Term) string {
 
 const smtPrelude = `(declare-sort Str 0)
 (declare-datatypes ((Ref 0)) (((nilref) (obj (family Int) (serial Int)) (sub (parent Ref) (fld Int)) (elem (base Ref) (idx Int)) (mkey (mapof Ref) (mapkey Str)))))
+(declare-fun rootid (Ref) Int)
 `
 
 // Query renders: assumptions /\ not goal
@@ -1281,7 +1310,7 @@ func smtQueryG(assumptions []*Term, goal *Term, wantModel bool, modelTerms map[s
 		sb.WriteByte('\n')
 	}
 	if ground {
-		sb.WriteString("(declare-fun strlen (Str) Int)\n(declare-fun strcat (Str Str) Str)\n(declare-fun rootid (Ref) Int)\n")
+		sb.WriteString("(declare-fun strlen (Str) Int)\n(declare-fun strcat (Str Str) Str)\n")
 	}
 	if !ground {
 		sb.WriteString("(declare-fun strlen (Str) Int)\n(assert (forall ((s!q Str)) (! (>= (strlen s!q) 0) :pattern ((strlen s!q)))))\n")
@@ -1290,7 +1319,7 @@ func smtQueryG(assumptions []*Term, goal *Term, wantModel bool, modelTerms map[s
 		sb.WriteString("(declare-fun strcat (Str Str) Str)\n(assert (forall ((a!q Str) (b!q Str)) (! (= (strlen (strcat a!q b!q)) (+ (strlen a!q) (strlen b!q))) :pattern ((strcat a!q b!q)))))\n(assert (forall ((a!q Str)) (! (= (strcat " + p.emptySym() + " a!q) a!q) :pattern ((strcat " + p.emptySym() + " a!q)))))\n(assert (forall ((a!q Str)) (! (= (strcat a!q " + p.emptySym() + ") a!q) :pattern ((strcat a!q " + p.emptySym() + ")))))\n(assert (forall ((a!q Str) (b!q Str) (c!q Str)) (! (= (strcat (strcat a!q b!q) c!q) (strcat a!q (strcat b!q c!q))) :pattern ((strcat (strcat a!q b!q) c!q)))))\n")
 	}
 	if p.usesRootID && !ground {
-		sb.WriteString("(declare-fun rootid (Ref) Int)\n(assert (= (rootid nilref) 0))\n(assert (forall ((f!q Int) (s!q Int)) (! (= (rootid (obj f!q s!q)) f!q) :pattern ((obj f!q s!q)))))\n(assert (forall ((p!q Ref) (f!q Int)) (! (= (rootid (sub p!q f!q)) (rootid p!q)) :pattern ((sub p!q f!q)))))\n(assert (forall ((p!q Ref) (i!q Int)) (! (= (rootid (elem p!q i!q)) (rootid p!q)) :pattern ((elem p!q i!q)))))\n(assert (forall ((p!q Ref) (k!q Str)) (! (= (rootid (mkey p!q k!q)) (rootid p!q)) :pattern ((mkey p!q k!q)))))\n")
+		sb.WriteString("(assert (= (rootid nilref) 0))\n(assert (forall ((f!q Int) (s!q Int)) (! (= (rootid (obj f!q s!q)) f!q) :pattern ((obj f!q s!q)))))\n(assert (forall ((p!q Ref) (f!q Int)) (! (= (rootid (sub p!q f!q)) (rootid p!q)) :pattern ((sub p!q f!q)))))\n(assert (forall ((p!q Ref) (i!q Int)) (! (= (rootid (elem p!q i!q)) (rootid p!q)) :pattern ((elem p!q i!q)))))\n(assert (forall ((p!q Ref) (k!q Str)) (! (= (rootid (mkey p!q k!q)) (rootid p!q)) :pattern ((mkey p!q k!q)))))\n")
 	}
 	if len(lits) > 1 {
 		sb.WriteString("(assert (distinct " + strings.Join(lits, " ") + "))\n")
